@@ -557,7 +557,7 @@ func calculateObjectClassAndIsStatic(targetT base.T) (string, bool) {
 
 	// 1, '1', 1.1, [], {} and more...
 	switch targetT.GetType() {
-	case base.INT, base.FLOAT, base.ARRAY, base.HASH, base.STRING, base.OBJECT:
+	case base.INT, base.FLOAT, base.ARRAY, base.HASH, base.STRING, base.OBJECT, base.RANGE:
 		return targetT.GetObjectClass(), false
 
 	case base.UNKNOWN:
